@@ -5,5 +5,5 @@ CONSTANTS
   MaxExec = 1
   Impl = "noerr"
   Eager = FALSE
-INVARIANTS TypeOK Accounted NothingLeft
+INVARIANTS NothingLeft
 CHECK_DEADLOCK FALSE
